@@ -73,6 +73,7 @@ def run(cfg, chooser, seed=0):
                 else [b'limits@openssh.com'])
         srv = RS.RefSFTP(loop, extensions=exts)
         srv.empty_reads = bool(cfg.get('empty_reads'))
+        srv.max_read_limit = cfg.get('max_read', 0)
         if cfg.get('ranges_cap'):
             srv.ranges_cap = cfg['ranges_cap']
         src = sparse_content(size, extents) if extents is not None else content(size)
@@ -192,6 +193,11 @@ def run(cfg, chooser, seed=0):
                     viol.append(('success-despite-early-eof', 'non-sparse transfer: source ended before its '
                                  'announced size, operation returned normally with %d of %d bytes'
                                  % (len(dest or b''), len(expect))))
+            elif op == 'fread' and cfg['range'][1] >= 0 and cfg['range'][1] <= min(cfg['b'], cfg.get('max_read') or cfg['b']) and \
+                    dest and expect.startswith(dest):
+                # read(n) promises "up to n bytes": a request small enough to go out as one READ may come back as
+                # short as the server answered it (reads to the end of the file and longer reads are reassembled)
+                pass
             elif not premature and not short_src and dest != expect:
                 first = next((i for i in range(min(len(dest), len(expect))) if dest[i] != expect[i]),
                              min(len(dest), len(expect)))
@@ -277,6 +283,13 @@ def jobs(tier):
                 if op == 'fread':
                     c['range'] = (0, -1)
                 js.append((c, bound))
+    # a server that announces a read limit below the block size the application asked for, and answers longer
+    # reads short
+    for b, lim in ((8, 4), (8, 3), (16, 4)):
+        for rng in ((0, -1), (0, lim + 1), (0, b), (1, b - 1), (0, lim), (2, 2 * b + 1)):
+            js.append((dict(op='fread', size=3 * b + 2, b=b, r=2, range=rng, max_read=lim), bound if b == 8 else 1))
+        for op in ('get', 'copy'):
+            js.append((dict(op=op, size=2 * b + 3, b=b, r=2, sparse=False, max_read=lim), 1))
     # file object reads / writes
     for b in (4, 8):
         for r in (1, 2, 3):
